@@ -330,7 +330,13 @@ def make_case(seed, cid, quick=True, family=None, dim=None, topo=None, widenings
                 i = fresh(); L.append("lim %s bounded %d %d %d -1 %s plain %d" % (w, i, pairs[pi][0], pairs[pi][1], fmt_cons(cs), res[pi]))
                 if r.random() < 0.5:
                     pi = r.choice([0, 1, 2])
-                    i = fresh(); L.append("lim %s %s %d %d %d %d %s plain %d" % (w, r.choice(["limited", "bounded"]), i, pairs[pi][0], pairs[pi][1], r.choice([0, 1, 2]), fmt_cons(cs), res[pi]))
+                    kd = r.choice(["limited", "bounded"])
+                    lp = fresh(); L.append("lim %s %s %d %d %d -1 %s plain %d" % (w, kd, lp, pairs[pi][0], pairs[pi][1], fmt_cons(cs), res[pi]))
+                    i = fresh(); L.append("lim %s %s %d %d %d %d %s plain %d lplain %d" % (w, kd, i, pairs[pi][0], pairs[pi][1], r.choice([0, 1, 2]), fmt_cons(cs), res[pi], lp))
+                if r.random() < 0.5:
+                    # x's own constraints as the limiting system: the extrapolation is x itself
+                    lp = fresh(); L.append("lim %s limited %d %d %d -1 consx plain %d" % (w, lp, pairs[0][0], pairs[0][1], res[0]))
+                    i = fresh(); L.append("lim %s limited %d %d %d %d consx plain %d lplain %d" % (w, i, pairs[0][0], pairs[0][1], r.choice([1, 2]), res[0], lp))
             X[w] = nx; iterates[w].append(nx)
     if r.random() < 0.5:
         cs = limit_cons(r, dim, topo, ch)
@@ -462,7 +468,11 @@ def make_shape_case(seed, cid, quick=True, kind=None):
                 L.append("#! same %d %d" % (i, j))
                 if r.random() < 0.5:
                     pi = r.choice([0, 1, 2])
-                    i = fresh(); L.append("lim %s limited %d %d %d %d %s plain %d" % (w, i, pairs[pi][0], pairs[pi][1], r.choice([0, 1, 2]), fmt_cons(cs), res[pi]))
+                    lp = fresh(); L.append("lim %s limited %d %d %d -1 %s plain %d" % (w, lp, pairs[pi][0], pairs[pi][1], fmt_cons(cs), res[pi]))
+                    i = fresh(); L.append("lim %s limited %d %d %d %d %s plain %d lplain %d" % (w, i, pairs[pi][0], pairs[pi][1], r.choice([0, 1, 2]), fmt_cons(cs), res[pi], lp))
+                if r.random() < 0.5:
+                    lp = fresh(); L.append("lim %s limited %d %d %d -1 consx plain %d" % (w, lp, pairs[0][0], pairs[0][1], res[0]))
+                    i = fresh(); L.append("lim %s limited %d %d %d %d consx plain %d lplain %d" % (w, i, pairs[0][0], pairs[0][1], r.choice([1, 2]), res[0], lp))
             X[w] = res[0]
     if r.random() < 0.7:
         cs = []
